@@ -146,6 +146,7 @@ type srtRender struct {
 	tagMode   int // 0 closed per run, 1 nested stack kept across runs and closed at end of cue, 2 same but left open at end of cue
 	escAll    bool
 	hours1    bool
+	ownLine   bool // tags opened before the first text line / closed after the last one stand on a line of their own
 	idxMix    uint64
 }
 
@@ -166,7 +167,7 @@ func srtGenRender(r *fw.Rand) srtRender {
 	return srtRender{
 		eol: fw.Pick(r, []string{"\n", "\r\n", "\r"}), bom: r.P(1, 3), indexKind: fw.Pick(r, []int{0, 3, 3, 1, 2}), idxMix: r.U64(),
 		between: r.Range(1, 3), atEOF: r.Range(-1, 3), sep: fw.Pick(r, []string{",", "."}), minDigits: r.P(1, 3),
-		arrow: r.Intn(5), coords: r.P(1, 5), upper: r.P(1, 4), quote: r.Intn(3), tagMode: r.Intn(3), escAll: r.Bool(), hours1: r.P(1, 4),
+		ownLine: r.P(1, 3), arrow: r.Intn(5), coords: r.P(1, 5), upper: r.P(1, 4), quote: r.Intn(3), tagMode: r.Intn(3), escAll: r.Bool(), hours1: r.P(1, 4),
 	}
 }
 
@@ -318,6 +319,9 @@ func srtRenderDoc(cs []srtCue, o srtRender, r *fw.Rand) []byte {
 					b.WriteString(t.open(o))
 					stack = append(stack, t)
 				}
+				if o.ownLine && ri == 0 && len(want) > common && r.Bool() {
+					b.WriteString(o.eol) // the opening tags stand on a line of their own: it denotes no text line
+				}
 				b.WriteString(srtEscape(run.Text, following, o.escAll))
 			}
 			b.WriteString(o.eol)
@@ -328,6 +332,9 @@ func srtRenderDoc(cs []srtCue, o srtRender, r *fw.Rand) []byte {
 			s = strings.TrimSuffix(s, o.eol)
 			b.Reset()
 			b.WriteString(s)
+			if o.ownLine {
+				b.WriteString(o.eol) // the closing tags stand on a line of their own
+			}
 			for i := len(stack) - 1; i >= 0; i-- {
 				b.WriteString(stack[i].close(o))
 			}
